@@ -14,6 +14,7 @@ from pokerkit import Automation, Card, Mode
 ID = 'C08'
 LEVEL = 'fault_enumeration'
 crash_is_violation = False
+query_crash_is_violation = True      # a query or property that raises while the scheduler reads it: 'it never raises'
 QUICK_RUNS = 1200
 THOROUGH_RUNS = 40000
 QUICK_BUDGET = 110
